@@ -203,12 +203,15 @@ SPECS = {
 #   states    number of register states (prefix of the architecture's lattice)
 # The GCC backend runs the C compiler once per distinct block (a breakpoint splits the program's block in two), which
 # costs 0.3 s of CPU on an idle machine and more than 2 s on a heavily loaded one: this bounds what a tier can afford.
-def _b(full_bp, full, sub_bp, sub, states, sub_idx):
-    return {"full_bp": full_bp, "full": full, "sub_bp": sub_bp, "sub": sub, "states": states, "sub_idx": sub_idx}
+#   extra_bp  single-instruction programs that also get the breakpoint deviations (an instruction that re-enters
+#             its own block - REP - is where a breakpoint must stop the chained execution of compiled blocks)
+def _b(full_bp, full, sub_bp, sub, states, sub_idx, extra_bp=()):
+    return {"full_bp": full_bp, "full": full, "sub_bp": sub_bp, "sub": sub, "states": states, "sub_idx": sub_idx,
+            "extra_bp": list(extra_bp)}
 
 
 BOUNDS = {
-    "quick": {"x86_32": _b(0, 1, 1, 2, 3, [1, 4, 5, 9])},
+    "quick": {"x86_32": _b(0, 1, 1, 2, 3, [1, 4, 5, 9], extra_bp=[11])},
     "thorough": {"x86_32": _b(1, 2, 2, 3, 3, [1, 2, 4, 5, 9]),
                  "x86_64": _b(0, 1, 1, 2, 2, [1, 2, 3]), "arml": _b(0, 1, 1, 2, 2, [1, 2, 3]),
                  "aarch64l": _b(0, 1, 1, 2, 2, [1, 2, 3]), "mips32l": _b(0, 1, 1, 2, 2, [2, 3, 4]),
@@ -294,7 +297,8 @@ def programs(arch, tier):
             in_sub = all(i in sub_idx for i in prog)
             if not (length <= b["full"] or length <= b["full_bp"] or (in_sub and (length <= b["sub"] or length <= b["sub_bp"]))):
                 continue
-            with_bp = length <= b["full_bp"] or (in_sub and length <= b["sub_bp"])
+            with_bp = (length <= b["full_bp"] or (in_sub and length <= b["sub_bp"]) or
+                       (length == 1 and prog[0] in b["extra_bp"]))
             out.append((prog, with_bp))
     return out
 
@@ -488,7 +492,8 @@ def run(ctx):
     cov["samples"] = samples[:4]
     cov["exhaustive"] = True
     cov["bounds"] = {"tier": tier, "backends": list(BACKENDS), "memory_maps": list(KINDS),
-                     "per_arch": {a: {k: v for k, v in BOUNDS[tier][a].items() if k != "sub_idx"} for a in archs},
+                     "per_arch": {a: {k: v for k, v in BOUNDS[tier][a].items() if k not in ("sub_idx", "extra_bp")} for a in archs},
+                     "extra_breakpoint_programs": {a: [SPECS[a]["alphabet"][i][0] for i in BOUNDS[tier][a]["extra_bp"]] for a in archs},
                      "alphabets": {a: [e[0] for e in SPECS[a]["alphabet"]] for a in archs},
                      "reduced_alphabets": {a: [SPECS[a]["alphabet"][i][0] for i in BOUNDS[tier][a]["sub_idx"]] for a in archs},
                      "x86_32_length3_alphabet": [SPECS["x86_32"]["alphabet"][i][0] for i in SUB3_X86_32]}
